@@ -401,6 +401,14 @@ class Executor:
         raise Unsupported(f"unresolved name {name}", node)
 
     def assign_name(self, st: State, name: str, v: Val):
+        if v.ty is None and v.py is None and self.contract is not None and self.spec is None:
+            declared = self.contract.locals.get(name)
+            if declared is not None and not isinstance(declared, str):
+                # sidecar-declared shape of a local whose static type is unknown (elements of sqlglot argument lists):
+                # an assumption (A-SQLGLOT 1 field shapes), listed with the trusted base
+                v = Val(v.t, declared, v.py, v.parts)
+                st.assume(self.type_pred(v.t, declared))
+                self.trusted_used.add(f"assumed shape of local `{name}` in {self.qualname}: {T.tname(declared)}")
         st.env[name] = v
         st.bound.pop(name, None)
 
@@ -743,6 +751,13 @@ class Executor:
             self.oblige(st, V.is_s(obj.t), f"safe.attr.{attr}@{getattr(node,'lineno',0)}", "safe", node, f".{attr}() receiver is a str")
             self.safe_assume(st, V.is_s(obj.t))
             return Val(NONE, None, py=BoundMethod(Val(obj.t, str), attr))
+        if ty is None and self.w.duck_class is not None and attr in self.w.duck_attrs:
+            # duck typing for the sqlglot node API: the receiver must be an Expression (else AttributeError)
+            E_ = self.w.duck_class
+            isnode = z3.And(V.is_r(obj.t), self.w.classes.isa(CLS(V.rid(obj.t)), E_))
+            self.oblige(st, isnode, f"safe.attr.{attr}@{getattr(node,'lineno',0)}", "safe", node, f".{attr} receiver is a sqlglot Expression")
+            self.safe_assume(st, isnode)
+            return self.get_attr(st, Val(obj.t, E_), attr, node)
         if ty is None:
             # unknown receiver type: allow plain field read with no hint (methods cannot be resolved)
             oid = self.as_ref(st, obj, node, f".{attr} receiver")
